@@ -130,8 +130,19 @@ def main():
         return 2
     b, fails, tool, res = V['build'], V['failures'], V['tool'], V['res']
     mine = []
+    try:
+        base_bodies = json.load(open(os.path.join(VERIF, 'contracts', 'baseline_bodies.json')))
+    except Exception:
+        base_bodies = {}
+    edited = {fn for fn, h in b.get('bodies', {}).items() if base_bodies.get(fn) != h}
+    new_shape = []
     for f in fails:
         tags = f['tags']
+        if tags is None and f['kind'] == 'safety' and f['fn'] in edited and f.get('pragma') is None:
+            # a Verus-generated safety obligation inside a function whose body differs from the baseline: this
+            # obligation did not exist (in this form) on the unchanged tree, so its failure alone decides nothing
+            new_shape.append(f)
+            continue
         if tags is None:
             # safety / unattributed obligation inside a function or lemma: function default tags (+C10 for safety)
             tags = list(props.fn_default_tags(b['contracts'], f['fn']) or []) + list(f.get('pragma') or [])
@@ -160,6 +171,9 @@ def main():
     assumed = [x for x in assumed if not x[1].startswith('LOST ANCHOR')]
     unchecked = [f for f in cone_fns if f not in fr and f not in [x[0] for x in assumed]]
     unchecked += ['%s (%s)' % lw for lw in lost_here if lw[0] not in unchecked]
+    for f in new_shape:
+        if pid in (props.fn_default_tags(b['contracts'], f['fn']) or []) + ['C10']:
+            tool.append({'msg': 'new safety obligation in edited function not discharged: ' + f['msg'], 'fn': f['fn'], 'line': f['line'], 'compile': False})
     forced_fns = set(V['forced'])
     unchecked += [f for f in cone_fns if f in forced_fns and f not in unchecked]
     tool_mine = [t for t in tool if t['fn'] is None or t['fn'] in cone_fns or t['fn'] not in {c_.name for c_ in b['contracts']}]
